@@ -150,3 +150,58 @@ func optionReuseChecks(ctx *common.Ctx) {
 	orc.Distinct = len(distinct)
 	orc.Samples = []string{"pool {fn(cf,0..0,o0), fn(cf,1..1,o1)}: Compile(q, o0, o1) then Compile(q, o1): `cf` must be undefined in the second"}
 }
+
+// builtinsOrderChecks: `builtins` lists every function (custom ones for every arity of their
+// merged masks) in ONE order — sorted by name, then arity — whatever the iteration order of the
+// Go maps it is collected from: repeated runs and recompilations give the same list.
+func builtinsOrderChecks(ctx *common.Ctx) {
+	orc := ctx.NewOracle("builtins-order", "`builtins` (whole list as text, and the sub-list of the custom names) evaluated 12 times — 4 compilations × 3 runs — with 0..3 custom registrations of overlapping arity ranges: every evaluation gives the same list, and the list is sorted by (name, arity as a number); distinct = option sets")
+	r := ctx.R.Fork(4242)
+	for h := 0; h < ctx.N(12, 120); h++ {
+		var opts []gojq.CompilerOption
+		for i, n := 0, r.Intn(4); i < n; i++ {
+			mn := r.Range(0, 3)
+			mx := min(mn+r.Range(1, 4), 8)
+			name := common.Pick(r, []string{"cf", "zz", "add", "custom_range"})
+			opts = append(opts, gojq.WithFunction(name, mn, mx, func(any, []any) any { return nil }))
+		}
+		q, _ := gojq.Parse(`builtins | ., map(select(startswith("cf/") or startswith("zz/") or startswith("add/") or startswith("custom_range/") or startswith("range/") or startswith("recurse/") or startswith("limit/")))`)
+		var first string
+		for c := 0; c < 4; c++ {
+			code, err := gojq.Compile(q, opts...)
+			if err != nil {
+				break
+			}
+			for k := 0; k < 3; k++ {
+				o := common.RunCode(code, nil, 200000, 10)
+				s := common.CanonOutcome(o)
+				orc.Cases++
+				if first == "" {
+					first = s
+					// sortedness of the full list
+					if len(o.Outs) > 0 {
+						if xs, ok := o.Outs[0].([]any); ok {
+							for i := 1; i < len(xs); i++ {
+								a, _ := xs[i-1].(string)
+								b, _ := xs[i].(string)
+								an, aa, _ := strings.Cut(a, "/")
+								bn, ba, _ := strings.Cut(b, "/")
+								var ai, bi int
+								fmt.Sscanf(aa, "%d", &ai)
+								fmt.Sscanf(ba, "%d", &bi)
+								if an > bn || an == bn && ai > bi {
+									ctx.Violate("builtins-order:unsorted", fmt.Sprintf("`builtins` lists %q before %q", a, b), map[string]any{"query": "builtins", "observed": []string{a, b}})
+									break
+								}
+							}
+						}
+					}
+				} else if s != first {
+					ctx.Violate("builtins-order:differs", fmt.Sprintf("evaluation %d of `builtins` (compilation %d) differs from the first one", c*3+k+1, c+1), map[string]any{"query": "builtins | ., map(select(…))", "first": clip(first), "observed": clip(s)})
+					return
+				}
+			}
+		}
+	}
+	orc.Distinct = ctx.N(12, 120)
+}
